@@ -70,7 +70,8 @@ pub fn child_main(args: &[String], handler: fn(&J) -> J) -> ! {
 }
 
 fn worker(kind: &str, file: &std::path::Path, from: usize, to: usize, limit: Duration, results: &Mutex<Vec<J>>) {
-  let exe = std::env::current_exe().expect("current exe");
+  // VERIF_CHILD_EXE: run the cases in another build of this binary (the release build: no overflow checks)
+  let exe = std::env::var("VERIF_CHILD_EXE").map(std::path::PathBuf::from).unwrap_or_else(|_| std::env::current_exe().expect("current exe"));
   let mut next = from;
   while next < to {
     let mut child = match Command::new(&exe)
